@@ -14,6 +14,7 @@ import EvalexprVerif.Translate.Lemmas
 import EvalexprVerif.Proofs.AgreeFnError
 import EvalexprVerif.Proofs.AgreeFnValue
 import EvalexprVerif.Proofs.AgreeFnNumeric
+import EvalexprVerif.Proofs.AgreeFnBuiltin
 
 namespace Evalexpr.AgreeFn
 open Evalexpr
@@ -57,10 +58,14 @@ theorem eval_fn (id : Str) (args : List Value) (s : St) :
     Gen.Operator.eval (.fn id) args s = Evalexpr.Operator.eval (.fn id) args s := by
   rcases args with _ | ⟨a, _ | ⟨b, rest⟩⟩
   · rfl
-  · rcases hu : s.ctx.userFn id with _ | g
-    · cases hb : s.ctx.builtinsDisabled <;> cases hf : builtinFunction id <;> rs_exec
+  · -- the builtin half: the generated `builtin_function` resolves and computes like the Model's (AgreeFnBuiltin)
+    have hB := fn_builtin_function_agree id a
+    rcases hu : s.ctx.userFn id with _ | g
+    · cases hb : s.ctx.builtinsDisabled <;> cases hf : builtinFunction id <;> cases hg : Gen.builtin_function id <;>
+        simp [hf, hg] at hB <;> rs_exec
     · rcases hr : g a with e | v
-      · cases e <;> cases hb : s.ctx.builtinsDisabled <;> cases hf : builtinFunction id <;> rs_exec
+      · cases e <;> cases hb : s.ctx.builtinsDisabled <;> cases hf : builtinFunction id <;>
+          cases hg : Gen.builtin_function id <;> simp [hf, hg] at hB <;> rs_exec
       · rs_exec
   · rfl
 
